@@ -4,6 +4,7 @@ C03 - range functions see exactly the window's samples and compute the reference
 import PromqlVerif.Proofs.Den
 import PromqlVerif.Proofs.BufProof
 import PromqlVerif.Proofs.SelOpProof
+import PromqlVerif.Proofs.ShardProof
 namespace PromqlVerif.C03
 open PromqlVerif Val
 
@@ -143,5 +144,20 @@ theorem over_time_present (p : Pt V) (ps : List (Pt V)) (rs re : Int) (secs : V)
 example : rangeKernel "count_over_time" [((0 : Int), (5 : Int)), (10, 7), (20, 4)] 0 20 20 = some 3 := by decide
 example : rangeKernel "resets" [((0 : Int), (5 : Int)), (10, 7), (20, 4)] 0 20 20 = some 1 := by decide
 example : rangeKernel "changes" [((0 : Int), (5 : Int)), (10, 5), (20, 4)] 0 20 20 = some 1 := by decide
+
+/-- **sharding is transparent for range functions too**: the series split into shards in any
+way, each shard's `matrixSelector` producing one batch (`matrix_operator_stream`), the shards
+arriving at the coalesce operator in any order: every merged step vector is - up to the order of
+its samples - the range function over all the series at that step. -/
+theorem sharded_rangefn_batch (fn : String) (range : Int) (stamp : Int → Int) (refs : List Int) (hrefs : refs ≠ [])
+    (shards : List (List (List (Sample V)))) (hsh : shards ≠ [])
+    (arr : List (Nat × List (List (Sample V))))
+    (harr : arr.Perm ((offsetsOf (shards.map List.length)).zip shards)) :
+    ∃ out, coalesceNext ((arr.map (shardArrival (fun s r =>
+        rangeKernel fn (windowPoints (r - range) r s) (r - range) r (rangeSeconds range)) stamp refs)).map
+        fun a => (a.1, some a.2)) = .ok (some out) ∧
+      All2 (fun (sv : SV V) (r : Int) => sv.1 = stamp r ∧ sv.2.Perm (rangeStep fn range shards.flatten r)) out refs := by
+  rw [rangeStep_eq_perStep]
+  exact sharded_batch _ stamp refs hrefs shards hsh arr harr
 
 end PromqlVerif.C03
